@@ -35,6 +35,10 @@ def plan(tier, seed):
         shards.append(dict(name=f"msg{i}", kind="msg", ccs=ccs[i::nm], per_cfg=1 if tier == "quick" else 25))
     for i in range(ncorp):
         shards.append(dict(name=f"corpus{i}", kind="corpus", start=i, step=ncorp * (8 if tier == "quick" else 1)))
+    # every worker is a fresh interpreter: give each its own string hash seed, so that layout decisions taken from set /
+    # dict-of-set iteration order at import time differ between shards
+    for i, sh in enumerate(shards):
+        sh["hashseed"] = (int(seed) * 16 + i) % 4096
     return shards
 
 
